@@ -392,3 +392,9 @@ def encode_stream(ops):
             _k, off, ln = op
             out += bytes((60 + off // 16, (off % 16) | ((ln - 2) << 4)))
     return bytes(out)
+
+
+def compress_literals(code):
+    """A valid (if not small) :c: code area for `code`: header + one literal per byte, no back-references."""
+    ops = [('lit', b) if (b != 0 and bytes((b,)) in C_TABLE[1:]) else ('esc', b) for b in code]
+    return b':c:\x00' + bytes((len(code) >> 8, len(code) & 255)) + b'\x00\x00' + encode_stream(ops)
